@@ -484,7 +484,8 @@ func TestVerifC13RHP2(t *testing.T) {
 			if w.held == (types.FileContractID{}) {
 				break
 			}
-			if rng.Intn(3) == 0 {
+			// (an empty range of roots is refused, so only contracts that hold sectors are asked)
+			if rng.Intn(3) == 0 && len(w.node.Contracts.SectorRoots(rev.ID())) > 0 {
 				if !w.sectorRoots(&rev, false) {
 					break
 				}
